@@ -33,6 +33,12 @@ def generate(rng, tier):
                     FL.force_uncertainties(rng, c, dgr=(rep in (0, 1)), dy=(rep in (0, 2)))
                 # Lorch on a low-r section whose largest abscissa is 0 divides pi by zero: outside every property's domain
                 low_ = [v for v in c["r"] if 0.0 <= v <= c["cutoff"]]
+                if not low_ and any(v >= 0.0 for v in c["r"]):
+                    # no grid point in [0, cutoff]: there is no low-r section to speak of (the filter raises on the empty selection) --
+                    # the cutoff is moved onto the first non-negative grid point
+                    c["cutoff"] = min(v for v in c["r"] if v >= 0.0)
+                    c["desc"]["cutoff"] = "grid"
+                    low_ = [c["cutoff"]]
                 if c["lorch"] and (not low_ or max(low_) <= 0.0):
                     c["lorch"] = False
                     c["desc"]["lorch"] = False
